@@ -301,6 +301,15 @@ func init() {
 		register(&Rule{ID: "SX-sp-" + name, Min: 20, Run: func(c *load.Ctx, r *report.RuleResult) { runSXSym(c, r, name, ' ', '\t', contentStates) },
 			Doc: "scanner " + name + ": in every reachable abstract state outside content (string bodies, annotation/comment text) space and tab have the same effect: indentation style does not change the scan"})
 	}
+	// thorough tier: the same rules over the deep exploration of the schema scanner
+	register(&Rule{ID: "SX-nl-schema-deep", Min: 20, Thorough: true, Run: func(c *load.Ctx, r *report.RuleResult) { runSXSym(c, r, "schema-deep", '\n', '\r', nil) },
+		Doc: "SX-nl-schema over the deep exploration (40,000 abstract states)"})
+	register(&Rule{ID: "SX-sp-schema-deep", Min: 20, Thorough: true, Run: func(c *load.Ctx, r *report.RuleResult) { runSXSym(c, r, "schema-deep", ' ', '\t', contentStates) },
+		Doc: "SX-sp-schema over the deep exploration (40,000 abstract states)"})
+	register(&Rule{ID: "SX-pos-schema-deep", Min: 10, Thorough: true, Run: func(c *load.Ctx, r *report.RuleResult) { runSXPos(c, r, "schema-deep") },
+		Doc: "SX-pos-schema over the deep exploration (40,000 abstract states)"})
+	register(&Rule{ID: "SX-comment-schema-deep", Min: 3, Thorough: true, Run: func(c *load.Ctx, r *report.RuleResult) { runSXComment(c, r, "schema-deep") },
+		Doc: "SX-comment-schema over the deep exploration (40,000 abstract states)"})
 	for _, name := range []string{"json", "schema", "enum"} {
 		name := name
 		register(&Rule{ID: "SX-pos-" + name, Min: 10, Run: func(c *load.Ctx, r *report.RuleResult) { runSXPos(c, r, name) },
